@@ -1231,5 +1231,8 @@ class ReferenceResolver:
         # store cross-refs from other models in the parser list (for later
         # processing)
         self.parser._crossrefs = new_crossrefs
+        # Postponed references resolve in later steps: keep the tool-support
+        # list ordered by reference position (required for binary search).
+        self.pos_crossref_list.sort(key=lambda x: x.ref_pos_start)
         # print("DEBUG: Next crossrefs #: {}".format(len(new_crossrefs)))
         return (resolved_crossref_count, self.delayed_crossrefs)
